@@ -82,6 +82,29 @@ def _long_work(units):
         return True
 
     for period, rounds, nev in units:
+        if rounds == "bulk":
+            # many distinct units on ONE evaluator, then a recompile to other salt / weights / labels, then the same
+            # units again (result caches that survive a recompile); period = number of units
+            n = period
+            ev = impl.ExperimentEvaluator(long_text(0))
+            a1 = asts.setdefault(1, rp.parse(long_text(1).replace('"L"', '"M"')))
+            for u in range(n):
+                impl.call(ev, {"uid": u})
+            with quiet():
+                ev.recompile(long_text(1).replace('"L"', '"M"'))
+            bad = 0
+            for u in list(range(n)) + list(range(n // 2)):
+                got = impl.call(ev, {"uid": u})
+                out["cov"]["transitions"] = out["cov"].get("transitions", 0) + 1
+                why = oracle.agree(got, oracle.expected(a1, {"uid": u}))
+                if why:
+                    bad += 1
+                    if bad == 1:
+                        out["cov"]["violating_cases"] = out["cov"].get("violating_cases", 0) + 1
+                        out["viol"].append({"kind": "life:long", "period": n, "steps": "bulk", "evaluators": 1, "text_index": 1,
+                                            "why": f"after {n} distinct units were evaluated and the evaluator was recompiled, unit {u} still gets {got!r}: {why}"})  # fmt: skip
+            out["outcomes"].append(f"bulk:{n}:{bad == 0}")
+            continue
         evs = [impl.ExperimentEvaluator(long_text(1000 + k)) for k in range(nev)]
         steps = 0
         ok = True
@@ -109,13 +132,14 @@ def long_histories(res, tier):
 
     periods = [1, 2, 3, 5, 8, 9, 15, 16, 17, 31, 32, 33, 63, 64, 65, 100, 127, 128, 129, 130] + ([255, 256, 257, 300, 511, 512, 513] if tier == "thorough" else [])
     units = [(p, 3, n) for p in periods for n in (1, 2)]
+    units += [(n, "bulk", 1) for n in ([10, 300, 5000, 10000] + ([70000, 140000] if tier == "thorough" else []))]
     for w in pmap(_long_work, units, chunk=1, inline_ok=False):
         res.merge_worker(w)
     res.set("long_history_periods", periods)
 
 
 def replay_long(data):
-    r = _long_work([(data["period"], 3, data["evaluators"])])
+    r = _long_work([(data["period"], "bulk" if data.get("steps") == "bulk" else 3, data["evaluators"])])
     return bool(r["viol"]), (r["viol"][0]["why"] if r["viol"] else "long history behaves like the model")
 
 
